@@ -130,7 +130,7 @@ func runC07(c *h.Ctx) {
 	g.C.MaxSteps = 5
 	dc := gen.DefaultDocCfg()
 	dc.Depth = 4
-	n := c.PerShard(c.N(30000, 600000))
+	n := c.PerShard(c.N(400000, 4000000))
 	for i := 0; i < n; i++ {
 		lax := r.IntN(2) == 0
 		chain := &gen.N{K: gen.KRoot}
